@@ -78,6 +78,8 @@ def check(run):
         ob.set(core.HOLDS, "skipped by --only")
         ob.nontrivial = False
     run.bounds.append(f"tier={t}: exposure of bit/byte/native, emulated fields {fields}, Jubjub points")
+    from vf.parts import run_parts
+    run_parts(run, "C08")
 
 
 def replay(payload):
@@ -88,4 +90,5 @@ def replay(payload):
             outs = [x["value"] for x in s.d["io"] if x["dir"] == "out"]
             bad += s.d["extra"]["offcircuit_pi"] != outs
         return 1 if bad else 0
-    return None
+    from vf.parts import replay_parts
+    return replay_parts("C08", payload)
